@@ -29,4 +29,13 @@ def insert (a : Arr) (pos : Int) (vs : List Int) : Except PyErr Arr :=
   if pos < -n ∨ pos > n then .error .IndexError
   else .ok (insertAt a (if pos < 0 then pos + n else pos).toNat vs)
 
+/-- NumPy's conversion of a Python int used as an index: values in [2^63, 2^64) do not fit the C index type and raise OverflowError
+    ("Python int too large to convert to C long"); everything else is range-checked against the length (IndexError) -/
+def cIndex (k : Int) : Except PyErr Int :=
+  if (2 : Int) ^ 63 ≤ k ∧ k < (2 : Int) ^ 64 then .error .OverflowError else .ok k
+/-- `a[k]` for a Python int `k` -/
+def getAt (a : Arr) (k : Int) : Except PyErr Int := (cIndex k).bind fun j => Model.BtArray.getItem a j
+/-- `a[k] = x` -/
+def setAt (a : Arr) (k : Int) (x : Int) : Except PyErr Arr := (cIndex k).bind fun j => Model.BtArray.setItem a j x
+
 end Model.Np1
